@@ -752,6 +752,180 @@ def conseq_known_witness():
     return None
 
 
+# ---------------- differential sort inference against z3 / strict cvc5
+
+SIG_POOL = [
+    ('p', 'Bool'), ('i', 'Int'), ('r', 'Real'), ('x', '(_ BitVec 8)'),
+    ('z', '(_ BitVec 4)'), ('st', 'String'), ('f', '(_ FloatingPoint 8 24)'),
+    ('rm', 'RoundingMode'), ('a', '(Array Int Int)'),
+    ('b1', '(_ BitVec 1)'), ('d', '(_ FloatingPoint 11 53)'),
+    ('aa', '(Array (_ BitVec 4) (_ BitVec 8))'),
+    # second variables / constants / applications (sort unknown to ddSMT for
+    # the applications of declared functions)
+    ('q', 'Bool'), ('j', 'Int'), ('s', 'Real'), ('y', '(_ BitVec 8)'),
+    ('su', 'String'), ('g', '(_ FloatingPoint 8 24)'),
+    ('1', None), ('1.5', None), ('#x0f', None), ('"a"', None),
+    ('true', None), ('(fb x)', None), ('(fi i)', None), ('(fr r)', None),
+    ('(bvnot x)', None), ('(+ i 1)', None),
+]
+SIG_FUNS = ('(declare-fun fb ((_ BitVec 8)) (_ BitVec 8))'
+            '(declare-fun fi (Int) Int)(declare-fun fr (Real) Real)')
+SIG_INDEXED = ['(_ extract 3 1)', '(_ zero_extend 2)', '(_ sign_extend 3)',
+               '(_ repeat 2)', '(_ rotate_left 1)', '(_ rotate_right 3)',
+               '(_ to_fp 8 24)', '(_ to_fp 11 53)',
+               '(_ to_fp_unsigned 8 24)', '(_ fp.to_ubv 8)',
+               '(_ fp.to_sbv 4)', '(_ divisible 3)', '(_ int2bv 8)']
+SIG_EXTRA = ['bv2nat', 'bvlshr', 'str.++', 'str.at', 'str.substr',
+             'str.replace', 'str.replace_all', 'str.from_int',
+             'str.from_code', 'str.to_re', 're.++', 'int2bv', 'fp.to_real',
+             'to_int', 'is_int', '>=', 'bvredor', 'bvredand', 'seq.unit',
+             'seq.len', 'seq.nth', 'select', 'store']
+
+
+def sig_operators():
+    """Every operator-like string constant in the *current* source of
+    ddsmt/smtlib.py (so a newly added inference branch is picked up), plus
+    some standard operators the inference does not know (answer must be
+    'unknown' or right)."""
+    import ast
+    import re
+    from ddsmt import smtlib
+    src = open(smtlib.__file__).read()
+    ops = set(SIG_EXTRA)
+    for n in ast.walk(ast.parse(src)):
+        if isinstance(n, ast.Constant) and isinstance(n.value, str) and \
+                re.fullmatch(r'[A-Za-z_.<>=+*/-][A-Za-z0-9_.<>=+*/-]*',
+                             n.value):
+            ops.add(n.value)
+    ops -= {'_', 'as', 'let', 'forall', 'exists', 'true', 'false',
+            'declare-const', 'declare-fun', 'define-fun', 'declare-datatype',
+            'declare-datatypes', 'set-info', 'set-logic'}
+    return sorted(ops) + SIG_INDEXED
+
+
+def _norm_sort(txt):
+    txt = ' '.join(txt.split())
+    return {'Float16': '(_ FloatingPoint 5 11)',
+            'Float32': '(_ FloatingPoint 8 24)',
+            'Float64': '(_ FloatingPoint 11 53)',
+            'Float128': '(_ FloatingPoint 15 113)'}.get(txt, txt)
+
+
+def cvc5_strict_sort(decls, term):
+    """Sort of ``term`` according to cvc5 with strict parsing (None if it
+    is rejected as not well-sorted)."""
+    import cvc5
+    tm = cvc5.TermManager()
+    slv = cvc5.Solver(tm)
+    slv.setOption('strict-parsing', 'true')
+    par = cvc5.InputParser(slv)
+    par.setStringInput(cvc5.InputLanguage.SMT_LIB_2_6,
+                       f'(set-logic ALL){decls}(assert (= {term} {term}))',
+                       'q')
+    sm = par.getSymbolManager()
+    try:
+        while True:
+            c = par.nextCommand()
+            if c.isNull():
+                break
+            c.invoke(slv, sm)
+        return _norm_sort(str(slv.getAssertions()[0][0].getSort()))
+    except Exception:
+        return None
+
+
+def sig_check_term(term, zd, decls):
+    """None (fine / not well-sorted), or a defect description."""
+    import z3
+    from ddsmt import nodeio, smtlib
+    try:
+        fz = z3.parse_smt2_string(f'(assert (= {term} {term}))', decls=zd)
+    except z3.Z3Exception:
+        return None, False
+    zs = fz[0].arg(0).sort()
+    node = list(nodeio.parse_smtlib(term))[0]
+    got = smtlib.get_sort(node)
+    w = smtlib.get_bv_width(node)
+    zsort = _norm_sort(zs.sexpr())
+    bad = None
+    if got is not None and _norm_sort(got.__str__()) != zsort:
+        bad = f'get_sort({term}) = {got.__str__()}'
+    elif w != -1 and not (zs.kind() == z3.Z3_BV_SORT and zs.size() == w):
+        bad = f'get_bv_width({term}) = {w}'
+    if bad is None:
+        return None, True
+    cs = cvc5_strict_sort(decls, term)
+    if cs is None:
+        return None, False      # not well-sorted by the standard's rules
+    if got is not None and _norm_sort(got.__str__()) == cs and (
+            w == -1 or cs == f'(_ BitVec {w})'):
+        return None, True       # z3 is lenient, cvc5 agrees with ddSMT
+    return (f'{bad}, but the term has sort {cs} (z3: {zsort}, cvc5 strict: '
+            f'{cs})'), True
+
+
+def run_sig(ops, tier, want=None):
+    import itertools
+    import time
+    import z3
+    from ddsmt import nodeio, smtlib
+    _conseq_options()
+    t0 = time.time()
+    decls = ''.join(f'(declare-const {n} {sv})' for n, sv in SIG_POOL
+                    if sv) + SIG_FUNS
+    zd = {}
+    for n, sv in SIG_POOL:
+        if sv:
+            zd[n] = z3.parse_smt2_string(
+                f'(declare-const {n} {sv})(assert (= {n} {n}))')[0].arg(0)
+    fv = z3.parse_smt2_string(
+        SIG_FUNS + '(assert (= (fb x) (fb x)))(assert (= (fi i) (fi i)))'
+        '(assert (= (fr r) (fr r)))', decls=zd)
+    for fn, t in zip(('fb', 'fi', 'fr'), fv):
+        zd[fn] = t.arg(0).decl()
+    smtlib.collect_information(list(nodeio.parse_smtlib(decls)))
+    names = [n for n, _ in SIG_POOL]
+    small = names[:12] if tier == 'quick' else names[:18]
+    n = nws = 0
+    bad = None
+    samples = []
+    for op in ops:
+        fp4 = op in ('fp.fma',)
+        for ar in (1, 2, 3, 4):
+            if ar == 4 and not fp4:
+                continue
+            pool = names if ar <= 2 else small
+            if ar == 4:
+                pool = ['rm', 'f', 'g', 'd', '(fb x)']
+            for args in itertools.product(pool, repeat=ar):
+                term = f'({op} {" ".join(args)})'
+                if want is not None and term != want:
+                    continue
+                n += 1
+                r, ws = sig_check_term(term, zd, decls)
+                nws += 1 if ws else 0
+                if ws and len(samples) < 3 and ar == 2:
+                    samples.append({'term': term})
+                if r and bad is None:
+                    bad = {'term': term, 'msg': r}
+            if bad:
+                break
+        if bad:
+            break
+    return {'status': 'VIOLATED' if bad else
+            ('CONFIRMED' if nws or want else 'VACUOUS'),
+            'cex': {'term': bad['term']} if bad else None,
+            'exc': {'type': 'Violation', 'msg': bad['msg']} if bad else None,
+            'paths': n, 'paths_ok': n, 'solver_checks': n,
+            'solver_seconds': 0.0, 'samples': samples,
+            'queries': {'candidate_terms': n, 'well_sorted_terms_compared':
+                        nws, 'operators': len(ops)},
+            'note': 'ground truth = sort computed by z3 for every candidate '
+                    'term z3 accepts; a disagreement is confirmed with cvc5 '
+                    'under strict parsing before it is reported',
+            'wall_s': round(time.time() - t0, 2)}
+
+
 def _setup():
     from vlib import shims
     shims.install_hash('T')
@@ -784,6 +958,13 @@ def partitions(tier):
                   'budget_s': 60})
     parts.append({'name': 'generator_typing', 'kind': 'E2',
                   'run': run_generator_typing, 'budget_s': 120})
+    ops = sig_operators()
+    nch = 16
+    for k in range(nch):
+        chunk = ops[k::nch]
+        parts.append({'name': f'sig_{k}', 'kind': 'E2',
+                      'run': (lambda chunk=chunk: run_sig(chunk, tier)),
+                      'budget_s': 900, 'bounds': {'operators': len(chunk)}})
     names = list(FAMS)
     nch = 14
     for k in range(nch):
@@ -795,6 +976,9 @@ def partitions(tier):
 
 
 def replay(part, cex):
+    if part.startswith('sig_'):
+        r = run_sig(sig_operators(), 'thorough', cex['term'])
+        return r['exc']['msg'] if r['exc'] else None
     if part == 'known_out_of_scope':
         _conseq_options()
         return conseq_known_witness()
